@@ -7,7 +7,7 @@ _TRUST = ("Trusts tm-db MemDB/GoLevelDB as the database, rapid, and the shared ~
           "through the chain simulator are separate checks. Pruning is PruneNothing as in app/config.go. ")
 
 CHECKS = {
-    "C04": c("storeb", "TestC04", dict(checks=3000, timeout=400), dict(checks=12000, shards=14, timeout=1500),
+    "C04": c("storeb", "TestC04", dict(checks=7000, timeout=400), dict(checks=12000, shards=14, timeout=1500),
              technique="property-based testing of generated block histories with close/reopen points against a never-reopened replica "
                        "and a per-version map model",
              design_ref="DESIGN.md §7 C04",
@@ -15,7 +15,7 @@ CHECKS = {
                         "views) on MemDB and GoLevelDB; CommitIDs compared with a replica after every commit, contents with the model after "
                         "every reopen. Exploration only: <=14 blocks of <=8 writes, 42-key alphabet, no absence claim.",
              level_note=_TRUST + "SetLazyLoading(true) has no caller and is not generated; the single-tree Load/LoadVersion form is left to C03."),
-    "C06": c("storeb", "TestC06", dict(checks=15000, timeout=400), dict(checks=50000, shards=14, timeout=1500),
+    "C06": c("storeb", "TestC06", dict(checks=35000, timeout=400), dict(checks=50000, shards=14, timeout=1500),
              technique="metamorphic property-based testing: twin runs differing only in transient writes / transient mounts / cache options, "
                        "plus a twin with one extra persistent write as non-vacuity guard",
              design_ref="DESIGN.md §7 C06",
@@ -23,7 +23,7 @@ CHECKS = {
                         "differ only in non-persistent inputs, different hash for a twin with an extra persistent write, transient stores "
                         "empty right after every Commit and after restart. Exploration only.",
              level_note=_TRUST + "ResponseCommit.Data at BaseApp level is not exercised here."),
-    "C07": c("storeb", "TestC07", dict(checks=3000, timeout=600), dict(checks=10000, shards=14, timeout=1500),
+    "C07": c("storeb", "TestC07", dict(checks=5000, timeout=600), dict(checks=10000, shards=14, timeout=1500),
              level="fault_enumeration",
              technique="crash-point enumeration with a fault-injecting DB wrapper (harness/faultdb): every write-event boundary of one commit "
                        "per generated history, each under 3 observed substore orders, compared with an uninterrupted reference run",
@@ -34,7 +34,7 @@ CHECKS = {
              level_note=_TRUST + "Events are whole batches (the DB contract makes a batch atomic); torn batches, fsync loss and crashes inside "
                         "RollbackVersion are not modelled. The recovered node re-executes the same blocks (determinism of the application is "
                         "assumed). faultdb never alters reads."),
-    "C08": c("storeb", "TestC08", dict(checks=3000, timeout=400), dict(checks=12000, shards=14, timeout=1500),
+    "C08": c("storeb", "TestC08", dict(checks=7000, timeout=400), dict(checks=12000, shards=14, timeout=1500),
              technique="property-based testing of generated histories + RollbackVersion(target) + reopen + replay (same or different blocks) "
                        "against reference CommitIDs, a fresh replica and the per-version map model",
              design_ref="DESIGN.md §7 C08",
@@ -43,7 +43,7 @@ CHECKS = {
                         "versions, and hashes after re-applying the same or different blocks. Exploration only.",
              level_note=_TRUST + "RollbackVersion has no caller inside the repository; it is driven the way doc/guides/rollback.md and the "
                         "commented baseapp tests use it (mount, rollback, restart). Height cache is off."),
-    "C09": c("storeb", "TestC09", dict(checks=8000, steps=50, timeout=400), dict(checks=25000, steps=80, shards=14, timeout=1500),
+    "C09": c("storeb", "TestC09", dict(checks=18000, steps=50, timeout=400), dict(checks=25000, steps=80, shards=14, timeout=1500),
              technique="stateful property-based testing (rapid state machine): commits, uncommitted writes, historical views "
                        "(LoadLazyVersion / CacheMultiStoreWithVersion), reads and long-lived iterators, against per-height map snapshots",
              design_ref="DESIGN.md §7 C09",
@@ -52,7 +52,7 @@ CHECKS = {
                         "Exploration only: <=14 blocks, single goroutine.",
              level_note=_TRUST + "Height cache off (C10 covers it). ctx.PrevCtx and ABCI custom queries are the app-level variant. True "
                         "concurrency between queries and block execution is not explored."),
-    "C10": c("storeb", "TestC10", dict(checks=4000, timeout=400), dict(checks=12000, shards=14, timeout=1500),
+    "C10": c("storeb", "TestC10", dict(checks=7000, timeout=400), dict(checks=12000, shards=14, timeout=1500),
              technique="differential property-based testing: the same generated history on a cache=true and a cache=false multistore, every "
                        "read at every recent height compared between the two and with the map model",
              design_ref="DESIGN.md §7 C10",
